@@ -231,10 +231,13 @@ func buildRaw(r *RawB) hclwrite.Tokens {
 			if t.Type == hclsyntax.TokenEOF {
 				continue
 			}
-			out = append(out, &hclwrite.Token{Type: t.Type, Bytes: append([]byte{}, t.Bytes...), SpacesBefore: 1})
+			out = append(out, &hclwrite.Token{Type: t.Type, Bytes: append([]byte{}, t.Bytes...), SpacesBefore: 0})
 		}
 		for len(out) > 0 && out[len(out)-1].Type == hclsyntax.TokenNewline {
 			out = out[:len(out)-1]
+		}
+		if r.KeepEOF {
+			out = append(out, &hclwrite.Token{Type: hclsyntax.TokenEOF, Bytes: []byte{}})
 		}
 		return out
 	case "tuple":
@@ -268,7 +271,10 @@ func buildRaw(r *RawB) hclwrite.Tokens {
 func rawToks(ts hclwrite.Tokens) []tok {
 	var r []tok
 	for _, t := range ts {
-		r = append(r, tok{t.Type, string(t.Bytes)})
+		if t.Type == hclsyntax.TokenEOF {
+			continue
+		}
+		r = append(r, mkTok(hclsyntax.Token{Type: t.Type, Bytes: t.Bytes}))
 	}
 	return r
 }
